@@ -78,8 +78,8 @@ def _run(chk, tier):
     r = common.rng("C04")
     quick = tier == "quick"
     stats = collections.Counter()
-    cases, dist = viewcorr.make_cases(chk, r, 7 if quick else 6, corpus_prop=PROP,
-                                      testdata=viewcorr.TESTDATA[:5] if quick else viewcorr.TESTDATA,
+    cases, dist = viewcorr.make_cases(chk, r, 10 if quick else 6, corpus_prop=PROP,
+                                      testdata=viewcorr.TESTDATA[:7] if quick else viewcorr.TESTDATA,
                                       null_order_modules=1 if quick else 2)
     pinned = _pinned(chk)
     builds = [("g++ -std=c++14 -O0", dict(std="c++14", compiler="g++", opt="-O0", defines=()), "OBS")]
